@@ -225,12 +225,12 @@ void generate(Rng& r, Workload& w, int tier) {
     int mode = int(r.below(4));   // 0 mixed, 1 insert heavy then erase heavy, 2 small, 3 big tree then long erase phase
     int64_t universe = mode == 3 ? int64_t(r.range(60, 396)) : int64_t(r.below(37));
     w.cfg = {int64_t(r.below(NVARIANTS)), int64_t(r.below(5)), int64_t(r.below(4)), universe, int64_t(r.below(2))};
-    int n = int(r.range(1, tier ? 160 : 120));
+    int n = int(r.range(1, tier ? 400 : 120));
     if (mode == 2) n = int(r.range(1, 20));
     if (mode == 3) {
         // a tree of several levels (bulk load or many inserts), then mostly erases of all three kinds:
         // the underflow / merge / shift branches high up in the tree need many removals to be reached
-        n = int(r.range(60, tier ? 400 : 260));
+        n = int(r.range(60, tier ? 1200 : 260));
         if (r.chance(1, 2)) w.ops.push_back({B_BULK_LOAD, 0, 0, 0, int64_t(28 + r.below(7))});
         else for (int i = 0; i < int(r.range(40, 200)); ++i) w.ops.push_back({B_INSERT, 0, 0, int64_t(r.below(400)), 0});
         int erase_kind = int(r.below(4));   // 3: mixed
